@@ -86,6 +86,37 @@ pub fn run_one(tr: &RunTrace, opts: &RunOpts) -> RunReport {
                 .expect("spawn simulated thread");
             handles.push(h);
         }
+        // watchdog: if no scheduler event happens for a while although threads are still alive,
+        // the baton holder is blocked on something outside the simulator (e.g. a lock a change
+        // added, held by a parked thread): release everybody rather than hang
+        if let Some(s) = &sched {
+            let (mut last, mut stale, mut blocked, mut spins) = (s.progress(), 0u32, 0u32, 0u32);
+            while handles.iter().any(|h| !h.is_finished()) {
+                if stale == 0 && spins < 200 {
+                    // most runs finish within microseconds: do not pay a timer sleep for them
+                    spins += 1;
+                    std::thread::yield_now();
+                    continue;
+                }
+                std::thread::sleep(std::time::Duration::from_millis(1));
+                let now = s.progress();
+                if now == last {
+                    stale += 1;
+                    // no scheduler event for a millisecond: is the holder asleep in the kernel?
+                    blocked = if s.holder_is_blocked() { blocked + 1 } else { 0 };
+                    // three consecutive sightings (or, should /proc be unavailable, two seconds
+                    // without any event) and everybody is released
+                    if blocked == 3 || stale == 2000 {
+                        s.release_all();
+                    }
+                } else {
+                    last = now;
+                    stale = 0;
+                    blocked = 0;
+                    spins = 0;
+                }
+            }
+        }
         for h in handles {
             let _ = h.join();
         }
@@ -234,6 +265,7 @@ pub fn run_one(tr: &RunTrace, opts: &RunOpts) -> RunReport {
     c.insert("fault_preempt_inside_call", sched_report.inner_switches);
     c.insert("sched_yield_points", sched_report.yields);
     c.insert("sched_switches", sched_report.switches);
+    c.insert("sched_fallback_free_running", u64::from(sched_report.fell_back_to_free_running));
 
     let violations = std::mem::take(&mut *world.viol.lock().unwrap_or_else(std::sync::PoisonError::into_inner));
     let classes = world.classes.lock().unwrap_or_else(std::sync::PoisonError::into_inner).iter().cloned().collect();
